@@ -91,6 +91,9 @@ func subnetIDs(slot, node int) []int {
 }
 
 func runScen(s Scen) (res result) {
+	if s.Attack == "hit-and-run" {
+		return runHitAndRun(s)
+	}
 	res.obs = map[string]any{}
 	t := s.tree()
 	ts := newTerms(t)
